@@ -206,7 +206,7 @@ def pairsOf (ps : List Pair) : String :=
 
 def sectionOf : String → Option Section
   | "1" => some .defaultName | "2" => some .name | "3" => some .synopsis | "4" => some .commandList
-  | "5" => some .optionList | "6" => some .commandInfo | _ => none
+  | "5" => some .optionList | "6" => some .commandInfo | "0" => some .none | _ => none
 
 def lookupNat (k : Nat) : List (Nat × Nat) → Option Nat
   | [] => none
